@@ -174,12 +174,50 @@ func (P *Program) modCompute(fn *ssa.Function) map[string]bool {
 		}
 		return false
 	}
+	// paramRoot: addr is a field path into the struct pointed to by parameter k: returns k and the
+	// offset of the struct that directly contains the addressed field.
+	var paramRoot func(v ssa.Value) (int, int64, bool)
+	paramRoot = func(v ssa.Value) (int, int64, bool) {
+		switch x := v.(type) {
+		case *ssa.Parameter:
+			for i, p := range fn.Params {
+				if p == x {
+					if _, isPtr := x.Type().Underlying().(*types.Pointer); isPtr {
+						return i, 0, true
+					}
+				}
+			}
+		case *ssa.FieldAddr:
+			k, off, ok := paramRoot(x.X)
+			if !ok {
+				return 0, 0, false
+			}
+			si := tt.structOf(deref(x.X.Type()))
+			return k, off + si.fields[x.Field].offset, true
+		}
+		return 0, 0, false
+	}
 	addStore := func(addr ssa.Value) {
 		defer func() {
 			if r := recover(); r != nil {
 				all()
 			}
 		}()
+		if fa, ok := addr.(*ssa.FieldAddr); ok {
+			if k, off, ok := paramRoot(fa.X); ok {
+				si := tt.structOf(deref(fa.X.Type()))
+				switch si.fields[fa.Field].typ.Underlying().(type) {
+				case *types.Struct, *types.Array:
+				default:
+					// only the object the parameter points to changes
+					hn, _ := tt.fieldHeap(si, fa.Field)
+					if !m[hn] {
+						m[fmt.Sprintf("@%d+%d$%s", k, off, hn)] = true
+					}
+					return
+				}
+			}
+		}
 		if rootAlloc(addr) {
 			fresh = true
 			defer func() { fresh = false }()
@@ -280,6 +318,16 @@ func (P *Program) modCompute(fn *ssa.Function) map[string]bool {
 					continue
 				}
 				if c.IsInvoke() {
+					for _, a := range c.Args {
+						switch av := a.(type) {
+						case *ssa.FieldAddr:
+							if !isStructPtr(av.Type()) {
+								addStore(av)
+							}
+						case *ssa.IndexAddr:
+							addStore(av)
+						}
+					}
 					if ms, ok := invokeMods(c); ok {
 						for _, k := range ms {
 							m[k] = true
@@ -293,6 +341,9 @@ func (P *Program) modCompute(fn *ssa.Function) map[string]bool {
 						if len(impls) > 0 {
 							for _, im := range impls {
 								for k := range P.modCompute(im.fn) {
+									if strings.HasPrefix(k, "@") {
+										k = k[strings.Index(k, "$")+1:] // receiver objects of interface calls: whole heap
+									}
 									m[k] = true
 								}
 							}
@@ -306,6 +357,16 @@ func (P *Program) modCompute(fn *ssa.Function) map[string]bool {
 					continue
 				}
 				callee := c.StaticCallee()
+				if callee != nil && callee.String() == "errors.As" && len(c.Args) == 2 {
+					// the target is written
+					if mi, ok := c.Args[1].(*ssa.MakeInterface); ok {
+						if _, isPtr := mi.X.Type().Underlying().(*types.Pointer); isPtr {
+							addStore(mi.X)
+							m["$alloc"] = true
+							continue
+						}
+					}
+				}
 				if callee == nil {
 					if mc, ok := c.Value.(*ssa.MakeClosure); ok {
 						callee = mc.Fn.(*ssa.Function)
@@ -324,7 +385,19 @@ func (P *Program) modCompute(fn *ssa.Function) map[string]bool {
 					}
 				}
 				for k := range P.modCompute(callee) {
-					m[k] = true
+					m[translateMod(k, c.Args, paramRoot, rootAlloc)] = true
+				}
+				// an interior pointer (&x.f, &s[i]) handed to a callee: the callee may store through
+				// it, which changes our field/element heap, not the callee's view of a standalone cell
+				for _, a := range c.Args {
+					switch av := a.(type) {
+					case *ssa.FieldAddr:
+						if !isStructPtr(av.Type()) {
+							addStore(av)
+						}
+					case *ssa.IndexAddr:
+						addStore(av)
+					}
 				}
 				// closures passed as arguments may run (time.AfterFunc runs its argument on another
 				// goroutine later: concurrency is not modelled)
@@ -340,12 +413,12 @@ func (P *Program) modCompute(fn *ssa.Function) map[string]bool {
 						a = ct.X
 					}
 					if mc, ok := a.(*ssa.MakeClosure); ok {
-						for k := range P.modCompute(mc.Fn.(*ssa.Function)) {
+						for k := range wholeMods(P.modCompute(mc.Fn.(*ssa.Function))) {
 							m[k] = true
 						}
 					} else if _, isSig := a.Type().Underlying().(*types.Signature); isSig {
 						if _, isFn := a.(*ssa.Function); isFn {
-							for k := range P.modCompute(a.(*ssa.Function)) {
+							for k := range wholeMods(P.modCompute(a.(*ssa.Function))) {
 								m[k] = true
 							}
 						} else if _, isParam := a.(*ssa.Parameter); isParam {
@@ -370,13 +443,41 @@ func (P *Program) modCompute(fn *ssa.Function) map[string]bool {
 	return finish()
 }
 
-// normMods removes "N$X" entries shadowed by a plain "X".
+// normMods removes "N$X" and "@k+off$X" entries shadowed by a plain "X".
 func normMods(m map[string]bool) {
 	for k := range m {
 		if strings.HasPrefix(k, "N$") && m[k[2:]] {
 			delete(m, k)
 		}
+		if strings.HasPrefix(k, "@") {
+			if i := strings.Index(k, "$"); i > 0 && m[k[i+1:]] {
+				delete(m, k)
+			}
+		}
 	}
+}
+
+// translateMod maps a pointwise entry of a callee ("@k+off$heap": only the object parameter k points
+// to changes) to the caller's view of the actual argument.
+func translateMod(k string, args []ssa.Value, paramRoot func(ssa.Value) (int, int64, bool), rootAlloc func(ssa.Value) bool) string {
+	if !strings.HasPrefix(k, "@") {
+		return k
+	}
+	var idx int
+	var off int64
+	i := strings.Index(k, "$")
+	if _, err := fmt.Sscanf(k[:i], "@%d+%d", &idx, &off); err != nil || idx >= len(args) {
+		return k[i+1:]
+	}
+	hn := k[i+1:]
+	a := args[idx]
+	if j, aoff, ok := paramRoot(a); ok {
+		return fmt.Sprintf("@%d+%d$%s", j, aoff+off, hn)
+	}
+	if rootAlloc(a) {
+		return "N$" + hn
+	}
+	return hn
 }
 
 func isPtrLike(t types.Type) bool {
